@@ -500,10 +500,16 @@ class Harness(object):
         b.get_account_total_market_value()
         b.get_account_total_equity()
         for pid in self.pids:
-            b.get_portfolio_cash_balance(pid)
-            b.get_portfolio_total_market_value(pid)
-            b.get_portfolio_total_equity(pid)
-            b.get_portfolio_as_dict(pid)
+            port = b.portfolios[pid]
+            # what the broker reports about a portfolio is what the portfolio reports itself, right now
+            got = (b.get_portfolio_cash_balance(pid), b.get_portfolio_total_market_value(pid),
+                   b.get_portfolio_total_equity(pid),
+                   {a: d['quantity'] for a, d in b.get_portfolio_as_dict(pid).items()})
+            own = (port.cash, port.total_market_value, port.total_equity,
+                   {a: d['quantity'] for a, d in port.portfolio_to_dict().items()})
+            if got != own and not any(isinstance(x, float) and x != x for x in got[:3] + own[:3]):
+                raise Violation('broker reports (cash, market value, equity, holdings) of %s as %r; the portfolio itself '
+                                'reports %r' % (pid, got, own))
         if len(self.txlog) != n_tx:
             raise Violation('read-only queries at %s filled %s' % (self.t, [(p, t.asset, t.quantity) for p, t in self.txlog[n_tx:]]))
         d = diff_snap(snap, snapshot(b))
@@ -516,7 +522,7 @@ class Harness(object):
                  'unk_pwd', 'dup', 'dup_int', 'unk_order', 'cur', 'cur_ctor', 'neg_init', 'unk_get_cash', 'unk_get_mv',
                  'unk_get_equity', 'unk_get_dict', 'early_sub', 'early_wd', 'early_txn', 'early_mark', 'neg_mark',
                  'p_neg_sub', 'p_neg_wd', 'p_over_wd', 'multi_unk_neg', 'lead_psub', 'lead_pwd', 'stale_update', 'dup_named',
-                 'stale_mark', 'early_mark_nan', 'neg_quote_update']
+                 'stale_mark', 'early_mark_nan', 'neg_quote_update', 'zero_mark']
 
     BAD_CODES = ['XYZ', 'gbp', 'Eur', 'usd', 'CHF', '', 'US', 'USD ', None]
 
@@ -649,6 +655,12 @@ class Harness(object):
                 a = next(iter(port.pos_handler.positions))
                 px = float('nan') if kind == 'early_mark_nan' else 10.0      # (an early mark without a price is early all the same)
                 call = lambda: port.update_market_value_of_asset(a, px, et)
+        elif kind == 'zero_mark':
+            # a quote of exactly zero for a held asset: the position refuses it (prices must be positive)
+            if not port.pos_handler.positions:
+                return
+            a = next(iter(port.pos_handler.positions))
+            call = lambda: port.update_market_value_of_asset(a, 0.0, max(b.current_dt, port.current_dt))
         elif kind == 'neg_mark':
             if not port.pos_handler.positions:
                 return
@@ -1156,11 +1168,21 @@ def make_machine(mode, rec, part):
 
         @precondition(lambda self: self.h is not None and self.h.pids)
         @rule(kind=st.sampled_from(['early_mark', 'neg_mark', 'stale_mark', 'stale_mark', 'stale_update', 'over_pwd', 'p_over_wd',
-                                    'early_mark_nan', 'neg_quote_update']),
+                                    'early_mark_nan', 'neg_quote_update', 'zero_mark', 'early_sub', 'early_txn']),
               p=st.integers(0, 3), x=st.sampled_from([0.01, 1.0, 250.0]))
         def refused_in_between(self, kind, p, x):
             # requests that must be refused and leave no trace, in every mode (the full catalogue is C15's)
             self._do(['bad', kind, p, x])
+
+        @precondition(lambda self: self.h is not None and self.h.pids)
+        @rule(p=st.integers(0, 3), a=st.integers(0, 4), tod=st.sampled_from(OPEN_TODS), kind=st.sampled_from(['early_sub', 'early_txn', 'early_wd']))
+        def close_then_early(self, p, a, tod, kind):
+            # a position is closed out completely; a request stamped before that closing fill is then refused
+            self._do(['order', p, a, 'any', 3, 1])
+            self._do(['clock', 0, list(tod)])
+            self._do(['order', p, a, 'close', 1, 1])
+            self._do(['clock', 1, list(tod)])
+            self._do(['bad', kind, p, 1.0])
 
         @precondition(lambda self: self.h is not None)
         @rule()
